@@ -7,6 +7,7 @@ import (
 	"io"
 	"io/ioutil"
 	"math"
+	"reflect"
 	"regexp"
 	"strconv"
 	"strings"
@@ -751,12 +752,24 @@ func (s *state) evalExpr(exp parse.Expr) (v Value, e error) {
 		case parse.OpBinaryNotEqual:
 			return !Equal(left, right), nil
 		case parse.OpBinaryGreaterEqual:
+			if ls, rs, ok := orderedAsStrings(left, right); ok {
+				return ls >= rs, nil
+			}
 			return CoerceNumber(left) >= CoerceNumber(right), nil
 		case parse.OpBinaryGreaterThan:
+			if ls, rs, ok := orderedAsStrings(left, right); ok {
+				return ls > rs, nil
+			}
 			return CoerceNumber(left) > CoerceNumber(right), nil
 		case parse.OpBinaryLessEqual:
+			if ls, rs, ok := orderedAsStrings(left, right); ok {
+				return ls <= rs, nil
+			}
 			return CoerceNumber(left) <= CoerceNumber(right), nil
 		case parse.OpBinaryLessThan:
+			if ls, rs, ok := orderedAsStrings(left, right); ok {
+				return ls < rs, nil
+			}
 			return CoerceNumber(left) < CoerceNumber(right), nil
 		case parse.OpBinaryRange:
 			l, r := CoerceNumber(left), CoerceNumber(right)
@@ -1000,6 +1013,24 @@ func (s *state) callMacro(macro macroDef, args ...Value) (Value, error) {
 		return nil, err
 	}
 	return buf.String(), nil
+}
+
+// orderedAsStrings reports whether < <= > >= compare the two values as
+// strings, and returns them: they do when both are strings and at least one
+// of them does not spell a number ('apple' < 'banana'). Everything else is
+// compared as numbers.
+func orderedAsStrings(left, right Value) (string, string, bool) {
+	left, right = withoutSafe(left), withoutSafe(right)
+	if reflect.ValueOf(left).Kind() != reflect.String || reflect.ValueOf(right).Kind() != reflect.String {
+		return "", "", false
+	}
+	ls, rs := CoerceString(left), CoerceString(right)
+	_, lerr := strconv.ParseFloat(strings.TrimSpace(ls), 64)
+	_, rerr := strconv.ParseFloat(strings.TrimSpace(rs), 64)
+	if lerr == nil && rerr == nil {
+		return "", "", false
+	}
+	return ls, rs, true
 }
 
 // execute kicks off execution of the given template.
